@@ -184,3 +184,7 @@ def run(ctx: Ctx):  # noqa: F811
                   f"{p.cls.name}.{p.field.name} is annotated {_show(p.field.resolved)}; the metamodel type is {_show(p.exp_ty)}",
                   _PT, p.field.lineno)
     ctx.floor("positions compared with the metamodel type", n, 1000)
+    # "closed-enumeration positions hold a member (or a primitive equal to one)": a structure hook registered for a closed
+    # enumeration class replaces E(value); folded on non-member candidates (shared with C13)
+    from . import c13 as _c13
+    _c13._enum_class_hooks(ctx)
